@@ -296,6 +296,44 @@ def state_deps(chk, program, rule='STATE-DEPS'):
     stored_via_self = {n.attr for q_, f_ in m.defs.items() if q_.startswith('NMEA2000Decoder.') for n in ast.walk(f_)
                        if isinstance(n, ast.Attribute) and isinstance(n.ctx, (ast.Store, ast.Del)) and isinstance(n.value, ast.Name) and n.value.id == 'self'}
     config |= (class_level - stored_via_self)
+    # configuration proper: what __init__ derives from its parameters (directly, through locals, or through other such attributes).  An attribute
+    # __init__ binds to something fresh ({} / set() / a new object) is the decoder's own state: its two documented pieces are HISTORY.
+    derived = set(class_level - stored_via_self)
+    tainted = {a.arg for a in init.args.args[1:] + init.args.kwonlyargs}
+    def _mentions(v):
+        return any((isinstance(x, ast.Name) and x.id in tainted) or
+                   (isinstance(x, ast.Attribute) and isinstance(x.value, ast.Name) and x.value.id == 'self' and x.attr in derived and isinstance(x.ctx, ast.Load)) for x in ast.walk(v))
+    for _ in range(3):
+        for st in ast.walk(init):
+            val = tg = None
+            if isinstance(st, ast.Assign):
+                val, tg = st.value, st.targets
+            elif isinstance(st, ast.AnnAssign) and st.value is not None:
+                val, tg = st.value, [st.target]
+            if val is None or not _mentions(val):
+                continue
+            for t in tg:
+                for x in ast.walk(t):
+                    if isinstance(x, ast.Name):
+                        tainted.add(x.id)
+                    elif isinstance(x, ast.Attribute) and isinstance(x.value, ast.Name) and x.value.id == 'self':
+                        derived.add(x.attr)
+    own_state = config - derived
+    # own state touched after construction (stored, item-assigned, or a method called on it that is not a plain reader)
+    READ_ONLY = {'get', 'items', 'keys', 'values', 'copy', 'index', 'count', 'isoformat', 'timestamp', 'lower', 'upper', 'format'}
+    touched = set()
+    for q_, f_ in m.defs.items():
+        if not q_.startswith('NMEA2000Decoder.') or q_ == 'NMEA2000Decoder.__init__':
+            continue
+        for n in ast.walk(f_):
+            if isinstance(n, ast.Attribute) and isinstance(n.value, ast.Name) and n.value.id == 'self' and n.attr in own_state:
+                par = getattr(n, '_parent', None)
+                if isinstance(n.ctx, (ast.Store, ast.Del)) or (isinstance(par, ast.Subscript) and isinstance(par.ctx, (ast.Store, ast.Del))) or \
+                        (isinstance(par, ast.AugAssign) and par.target is n) or \
+                        (isinstance(par, ast.Attribute) and (isinstance(par.ctx, (ast.Store, ast.Del)) or
+                                                             (isinstance(getattr(par, '_parent', None), ast.Call) and par._parent.func is par and par.attr not in READ_ONLY))):
+                    touched.add(n.attr)
+    history_present = HISTORY <= own_state
     methods_ = {q_.split('.', 1)[1] for q_ in m.defs if q_.startswith('NMEA2000Decoder.')}
     # (1) configuration is never mutated after construction
     for q, fn in m.defs.items():
@@ -312,6 +350,8 @@ def state_deps(chk, program, rule='STATE-DEPS'):
                 tgt = n.target.attr; how = 'augmented assignment'
             if tgt is None or tgt in HISTORY or tgt in bookkeeping:
                 continue
+            if tgt in own_state:
+                continue          # the decoder's own state, not configuration: whether it may decide anything is clause (2)
             chk.check(tgt not in config, rule, f"{q}::self.{tgt}.{how}", file=m.rel(), line=n.lineno, func=q,
                       expected='configuration (filter lists, options) is written by __init__ only', found=f"self.{tgt} modified by {how}",
                       detail='a filter that changes while decoding makes the result of one message depend on the messages seen before it')
@@ -335,6 +375,15 @@ def state_deps(chk, program, rule='STATE-DEPS'):
                         if s_[0] == 'attr' and s_[1] == ('param', 'self'):
                             used.setdefault(s_[2], e[-1])
         for a, ln in sorted(used.items()):
+            if a in own_state and a in touched and a not in HISTORY and a not in bookkeeping:
+                if history_present:
+                    chk.check(False, rule, f"{qual}::depends-on::self.{a}", file=m.rel(), line=ln, func=qual,
+                              expected='what is returned depends only on the configuration, the source map and the reassembly buffers', found=f"a guard reads self.{a}, state changed while decoding",
+                              detail='state besides the source map and the reassembly buffers decides whether a message is returned: an ignored or rejected input changes later results')
+                else:
+                    chk.unknown(rule, f"{qual}::depends-on::self.{a}", f"self.{a} is state changed while decoding and read by a guard; the documented state attributes {sorted(HISTORY - own_state)} "
+                                "are gone, so it may be their new home: not decided", m.rel(), ln)
+                continue
             ok = (a in config and a not in bookkeeping) or a in HISTORY or a in ('_isFastPGN', '_log_unsupported_pgn_once', '_decode_fast_message', '_call_decode_function') or \
                 (a in methods_ and a not in bookkeeping)          # a method called in a guard: what it reads is followed when it is walked in place
             chk.check(ok, rule, f"{qual}::depends-on::self.{a}", file=m.rel(), line=ln, func=qual,
